@@ -491,6 +491,19 @@ func runCheck(opt vexec.Options, prop string, seed int64, verif string) int {
 		sort.Strings(labels)
 		nfile := 0
 		for _, v := range r.Violations {
+			if v.Kind == "model" {
+				msg := fmt.Sprintf("%s: the harness's model of the code does not hold on this tree: %q (%v) -- not a violation claim", h.Name, v.Label, v.Vector)
+				dup := false
+				for _, b := range broken {
+					if strings.HasPrefix(b, h.Name+": the harness's model") && strings.Contains(b, v.Label) {
+						dup = true
+					}
+				}
+				if !dup {
+					broken = append(broken, msg)
+				}
+				continue
+			}
 			rc := replayCase{Harness: h.Name, Vector: v.Vector, Params: mergedParams(opt, h), Property: prop, Label: v.Label, Kind: v.Kind, Pos: v.Pos}
 			var o nativeOutcome
 			reproduced := false
